@@ -81,6 +81,97 @@ def rename_variables(prog, rnd):
   return Program(rules, prog.annotations, prog.ext, prog.engine_line)
 
 
+def rename_combine_locals(prog, rnd):
+  """alpha-renaming: the variables that are local to ONE aggregating expression (they occur
+  nowhere else in the rule) get fresh names; siblings keep theirs."""
+  rules = []
+  counter = [0]
+  for r in prog.rules:
+    aggs = []
+
+    def collect(n):
+      if isinstance(n, AggE):
+        aggs.append(n)
+      if isinstance(n, Node):
+        for c in children(n):
+          collect(c)
+    for part in list(r.args) + [v for _, v in r.nargs if v is not None] + [r.value, r.body]:
+      if part is not None:
+        collect(part)
+    if not aggs:
+      rules.append(r)
+      continue
+    def has_inner(n):
+      return any(isinstance(c, AggE) or has_inner(c) for c in children(n) if isinstance(c, Node))
+    leaves = [a for a in aggs if not has_inner(a)]
+    target = rnd.choice(leaves or aggs)     # an innermost one: its siblings keep their names
+    inside = variables(target)
+
+    def plain(n, acc):
+      # variables of n that are not inside a nested aggregating expression / negation
+      if isinstance(n, (AggE, Neg)):
+        return
+      if isinstance(n, Var):
+        acc.add(n.name)
+      if isinstance(n, Node):
+        for c in children(n):
+          plain(c, acc)
+
+    def visible_above(n, vis):
+      """-> set of variables visible in the scope that directly contains `target`, or None"""
+      if n is target:
+        return vis
+      if isinstance(n, (AggE, Neg)):
+        inner = set(vis)
+        for c in children(n):
+          plain(c, inner)
+        for c in children(n):
+          r_ = visible_above(c, inner)
+          if r_ is not None:
+            return r_
+        return None
+      if isinstance(n, Node):
+        for c in children(n):
+          r_ = visible_above(c, vis)
+          if r_ is not None:
+            return r_
+      return None
+    top = set()
+    parts = list(r.args) + [v for _, v in r.nargs if v is not None] + [r.value, r.body]
+    for part in parts:
+      if part is not None:
+        plain(part, top)
+    for k, v in r.nargs:
+      if v is None:
+        top.add(k)
+    outside = None
+    for part in parts:
+      if part is not None and outside is None:
+        outside = visible_above(part, top)
+    outside = outside if outside is not None else top
+    local = [v for v in inside if v not in outside]
+    if not local:
+      rules.append(r)
+      continue
+    m = {}
+    for v in local:
+      counter[0] += 1
+      m[v] = 'loc%d%s' % (counter[0], rnd.choice(['', 'a', 'z']))
+
+    def fn(n):
+      if n is target:
+        return rename_vars(n, m)
+      if isinstance(n, Node):
+        return mapn(n, fn)
+      return n
+
+    def ap(v):
+      return None if v is None else fn(v)
+    rules.append(Rule(r.pred, [ap(a) for a in r.args], [(k, ap(v)) for k, v in r.nargs], ap(r.value),
+                      r.distinct, ap(r.body), r.value_style))
+  return Program(rules, prog.annotations, prog.ext, prog.engine_line)
+
+
 def rename_predicates(prog, rnd, macros=()):
   names = ['Zeta', 'Alpha', 'Mu', 'Beta', 'Omega', 'Aa', 'Zz', 'T0', 'A_b']
   rnd.shuffle(names)
@@ -132,7 +223,10 @@ def c07_pairs(seed):
   rnd = random.Random(seed ^ 0xc07)
   case = base_case(seed)
   prog = case.prog
-  kind = rnd.choice(['rules', 'conjuncts', 'disjuncts', 'vars', 'preds', 'vars', 'conjuncts', 'all'])
+  kinds = ['rules', 'conjuncts', 'disjuncts', 'vars', 'preds', 'vars', 'conjuncts', 'all', 'combine_locals']
+  kind = kinds[(seed // 5) % len(kinds)]      # family = seed % 5: every (family, kind) within 45 seeds
+  if kind == 'combine_locals' and case.family not in ('agg', 'sugarbase', 'layered'):
+    kind = 'vars'
   m = {}
   if kind == 'rules':
     prog2 = permute_rules(prog, rnd)
@@ -145,6 +239,11 @@ def c07_pairs(seed):
       kind = 'conjuncts'
   elif kind == 'vars':
     prog2 = rename_variables(prog, rnd)
+  elif kind == 'combine_locals':
+    prog2 = rename_combine_locals(prog, rnd)
+    if prog2.text() == prog.text():
+      prog2 = rename_variables(prog, rnd)
+      kind = 'vars'
   elif kind == 'preds':
     prog2, m = rename_predicates(prog, rnd)
   else:
@@ -428,7 +527,7 @@ def sugar_combine_style(prog, rnd):
 def sugar_in_list(prog, rnd):
   """`x in [a, b]` <-> `(x == a | x == b)`"""
   def fn(n):
-    if isinstance(n, InP) and isinstance(n.l, ListE) and 1 <= len(n.l.items) <= 3:
+    if isinstance(n, InP) and isinstance(n.l, ListE) and 1 <= len(n.l.items) <= 4:
       return Disj([Cmp('==', n.e, it) for it in n.l.items])
     return n
   return Program([map_rule(r, fn) for r in prog.rules], prog.annotations, prog.ext, prog.engine_line)
